@@ -339,6 +339,29 @@ func runC03(cx *Ctx, r *Report) {
 			}
 		}
 		r.check(okP, "refund-inventory", "BeginBlock", "", "refunds pay the stored Sender the stored Amount (plain and outgoing routes); nothing else leaves escrow at expiry", fmt.Sprintf("begin-block payouts are not exactly 2 × htlc→stored Sender(stored Amount): %d", len(pays)))
+		// every refund route closes the contract: after the payout the record is marked
+		// Refunded and stored on every path (otherwise it stays open and can still be claimed)
+		okC := len(pays) > 0
+		bad := ""
+		for _, x := range pays {
+			closed := false
+			for _, a := range per["BeginBlock"] {
+				if a.ev.Kind != "assign:HTLC.State" || a.ev.Args[0].LooseString() != "2" || !followedBy(x.ev, a.ev) {
+					continue
+				}
+				for _, st := range per["BeginBlock"] {
+					if st.ev.Kind == "store.set" && hasPrefix(st.ev, htlcRec) && followedBy(a.ev, st.ev) {
+						closed = true
+					}
+				}
+			}
+			if !closed {
+				okC = false
+				bad = x.ev.Pos(cx)
+			}
+		}
+		r.check(okC, "refund-closes", "BeginBlock", bad, "after each refund payout the contract is marked Refunded and stored, on every path", "a refund payout ("+bad+") is not followed on every path by State := Refunded and the store of the contract: the refunded contract stays open and can be claimed afterwards, paying out a second time")
+		r.requireCount("refund-closes", 1)
 	}
 	_ = types.Typ
 	r.requireCount("claim-guards", 1)
